@@ -1,5 +1,60 @@
-(* C20 - property theorems only (placeholder while the proofs are being written) *)
-From VT Require Import Check.C20Check.
-Theorem C20_placeholder : forall k : ccase, c20_eval k = c20_eval k.
-Proof. reflexivity. Qed.
-Print Assumptions C20_placeholder.
+(* C20 - threaded server: concurrent terminations of one client.  Property theorems only.
+   Model: Conc/ServerConc.v at thread granularity (one scheduling choice = one access to the
+   client manager / eio.send / the disconnect handler / server.environ).  [outcome] (ConcSpec.v)
+   is the property: handler at most once at any time and exactly once when all tasks have
+   finished, no exception, no trace of the client, everybody else untouched. *)
+From VT Require Import Conc.ConcProofs.
+
+(* The property is FALSE of the faithful model: witnesses with two tasks (server.disconnect()
+   in one thread, the client's DISCONNECT packet in the other) on a client alone in "/". *)
+Theorem C20_refuted :
+  exists R m0 env0 causes sched, quiescent_start m0 /\
+    ~ outcome R m0 env0 causes (run_sched GThread R causes sched m0 env0).
+Proof. exact thread_refuted. Qed.
+Print Assumptions C20_refuted.
+
+(* both tasks pass is_connected before either calls pre_disconnect: the handler runs twice and
+   pending_disconnect keeps the sid *)
+Theorem C20_refuted_handler_twice :
+  let c := run_sched GThread [] x_two x_sched_twice x_lone [x_e0] in
+  all_done c = true /\ hcount (x_S "S0") x_sl (c_log c) = 2 /\ raised (c_log c) = false /\
+  is_pending (c_mgr c) (x_S "S0") x_sl = true.
+Proof. exact thread_refuted_twice. Qed.
+Print Assumptions C20_refuted_handler_twice.
+
+(* same window, the packet thread finishes first: disconnect() raises KeyError in
+   pre_disconnect after having appended the sid to pending_disconnect, which is never cleaned *)
+Theorem C20_refuted_keyerror_leftover :
+  let c := run_sched GThread [] x_two x_sched_keyerror x_lone [x_e0] in
+  all_done c = true /\ hcount (x_S "S0") x_sl (c_log c) = 1 /\ raised (c_log c) = true /\
+  In (LMark (x_S "S0") x_sl (Err KeyError)) (c_log c) /\
+  is_pending (c_mgr c) (x_S "S0") x_sl = true.
+Proof. exact thread_refuted_keyerror. Qed.
+Print Assumptions C20_refuted_keyerror_leftover.
+
+(* Characterisation: EVERY violating schedule (any number of tasks, any well-formed quiescent
+   start, any length) has a prefix after which two tasks have observed is_connected = True
+   for the same (sid, namespace) and neither has called pre_disconnect yet. *)
+Theorem C20_only_via_double_check :
+  forall R m0 env0 causes, quiescent_start m0 -> forall sched,
+    ~ outcome R m0 env0 causes (run_sched GThread R causes sched m0 env0) ->
+    exists k, double_window (prefix_cfg GThread R (init m0 env0 causes) sched k) = true.
+Proof. exact only_via_double_check. Qed.
+Print Assumptions C20_only_via_double_check.
+
+(* Equivalently: a schedule that never lets a second task answer its check for a client while
+   another task stands between its check and its mark for the same client is safe. *)
+Theorem C20_except :
+  forall R m0 env0 causes, quiescent_start m0 -> forall sched,
+    no_double_check GThread R (init m0 env0 causes) sched ->
+    outcome R m0 env0 causes (run_sched GThread R causes sched m0 env0).
+Proof. exact thread_except. Qed.
+Print Assumptions C20_except.
+
+(* In particular when the terminating actions run one after the other. *)
+Theorem C20_sequential :
+  forall R m0 env0 causes, quiescent_start m0 -> forall sched,
+    sequential GThread R (init m0 env0 causes) sched ->
+    outcome R m0 env0 causes (run_sched GThread R causes sched m0 env0).
+Proof. exact thread_sequential. Qed.
+Print Assumptions C20_sequential.
